@@ -4,6 +4,18 @@ CHECKS['C09'] = dict(
     text='Reference-model monitor: every generated name is converted through every representation by the real code and compared with an independent URI escaper / wire encoder / canonical-order comparator; held on the names and pairs explored, sampled with boundary bias (one-byte values x types exhaustive in the thorough tier).',
     design_ref='DESIGN.md 3/C09', technique='runtime differential monitor against an independent reference codec over generated names and name pairs',
     note='Trusts refcodec (own transcription of the NDN name/URI rules as documented by python-ndn) and CPython.')
+CHECKS['C01'] = dict(
+    text='Reference-model monitor on the real encoder/decoder: every produced wire is strictly re-read by an independent TLV codec (one element, exact nested lengths) and compared field by field with the inputs and with the library parser; invariant hooks on TlvModel.encode, shrink_length and calculate_signature record both shrink branches. Held on the packets explored (payload sizes solved onto every length-of-length transition, all shipped signers + a synthetic variable-length signer).',
+    design_ref='DESIGN.md 3/C01', technique='runtime differential monitor + invariant hooks (record-and-continue wrappers) over generated packets',
+    note='Trusts refcodec (own transcription of NDN packet format 0.3), pycryptodomex, CPython.')
+CHECKS['C02'] = dict(
+    text='Recording signer captures the bytes handed to the real signer; refcodec computes the spec signed/digest portions from the final wire; verification is repeated independently; every byte-substitution/truncation/structural/splice mutant is fed to the matching verifier and must be rejected unless its signed portion, SignatureInfo and signature value are unchanged. Held on the packets and mutants explored.',
+    design_ref='DESIGN.md 3/C02', technique='runtime monitor with recording signer + fault injection (wire mutation) judged by an independent reference',
+    note='pycryptodomex is common-mode between library and oracle; mutants the strict reader cannot parse are left to C07.', level='fault_enumeration')
+CHECKS['C07'] = dict(
+    text='Differential monitor of parse_interest/parse_data/parse_lp_packet_v2/parse_certificate/Name.from_bytes against an independent strict reader on random strings, grammar-generated packets and single-edit mutants; exception-class monitor; interpreter-step budget (sys.monitoring) for the linear-time clause. One open known finding (inner-overrun-accepted).',
+    design_ref='DESIGN.md 3/C07', technique='runtime differential monitor + sys.monitoring step budget over fuzzed and mutated inputs',
+    note='critical = odd type (library definition); legal int width = 1,2,4,8; step budget 60*len+5000 events.')
 _ALL = ['C%02d' % i for i in range(1, 21)]
 for _p in _ALL:
     if _p not in CHECKS:
